@@ -285,6 +285,24 @@ def mixed_version_cases(ctx, cases, meta):
                     tag = 'ATTRIBUTES' if opv == OP.GET_ATTRIBUTES.value else 'ATTRIBUTE_REFERENCE'
                     cases.append('CFieldRead %s %s %s %s' % (cp.string(cls), cver(v), cp.string(tag), cp.boolean(two)))
                     meta.append(('wire-layout', seq, j, cls))
+                # Query answers on a connection/engine that has seen other versions: the list is the one of THIS version
+                try:
+                    rm = messages.ResponseMessage()
+                    rm.read(utils.BytearrayStream(bytes(sent)), kmip_version=kmip_version_of(v))
+                    for b in rm.batch_items:
+                        if b.operation is not None and b.operation.value == OP.QUERY and b.result_status.value == enums.ResultStatus.SUCCESS:
+                            qops = [o if isinstance(o, OP) else o.value for o in (b.response_payload.operations or [])]
+                            cases.append('CQuery %s %s' % (cver(v), cp.lst(qops, lambda o: cp.z(o.value))))
+                            meta.append(('wire-query', seq, j))
+                            late = [o.name for o in qops if c16.SPEC_OP_MIN[o] > v]
+                            if late:
+                                ctx.violation({'class': 'query-advertises-later-op', 'op': late[0], 'version': c16.vstr(v)},
+                                              {'versions_on_one_connection': seq, 'request_index': j, 'request_version': v,
+                                               'advertised': [o.name for o in qops]},
+                                              'Query under KMIP %s (request %d of a connection carrying %s) advertises %s, introduced later' % (
+                                                  c16.vstr(v), j + 1, ', '.join(c16.vstr(x) for x in seq), late[0]))
+                except Exception:        # noqa - undecodable answers are reported by answer_problems
+                    pass
                 if probs:
                     nbad += 1
                     ctx.violation({'class': 'answer-not-in-request-version', 'version': c16.vstr(v), 'position': 'first' if j == 0 else 'later'},
